@@ -314,7 +314,7 @@ fn emit_child(t: &T, parens: bool, out: &mut Vec<String>, mode: Mode, st: &Style
         // fully parenthesised: every compound operand is wrapped; leaves optionally
         Mode::Full => !matches!(t, T::Star) && (!is_leaf(t) || st.wrap_leaves),
         Mode::FullSmall => {
-            if tree_depth(t) <= 8 {
+            if height_capped(t, 8) <= 8 {
                 !matches!(t, T::Star) && !is_leaf(t)
             } else {
                 parens
@@ -327,6 +327,18 @@ fn emit_child(t: &T, parens: bool, out: &mut Vec<String>, mode: Mode, st: &Style
     emit(t, out, mode, st);
     if parens {
         out.push(")".into());
+    }
+}
+
+/// height of `t`, but never looking deeper than `cap` levels (returns cap + 1 when it is taller)
+fn height_capped(t: &T, cap: usize) -> usize {
+    if cap == 0 {
+        return 1;
+    }
+    match t {
+        T::Bin(l, _, r) => 1 + height_capped(l, cap - 1).max(height_capped(r, cap - 1)),
+        T::Un(_, e) => 1 + height_capped(e, cap - 1),
+        _ => 1 + children(t).iter().map(|c| height_capped(c, cap - 1)).max().unwrap_or(0),
     }
 }
 
@@ -2195,7 +2207,13 @@ enum Op {
     /// SELECT <group cols>, <aggregates> FROM t [WHERE ..] [GROUP BY <group cols>] [HAVING COUNT(..) op n]
     /// aggregate = (function 0 COUNT(*) 1 COUNT 2 SUM 3 AVG 4 MIN 5 MAX, column)
     Aggregate { table: String, group: Vec<String>, aggs: Vec<(u8, String)>, cond: Option<Cond>, having: Option<(usize, B, i64)> },
+    /// GRAPH <algorithm> with every optional clause present or omitted.
+    /// algo: 0 PAGERANK 1 BETWEENNESS CENTRALITY 2 CLOSENESS CENTRALITY 3 EIGENVECTOR CENTRALITY
+    ///       4 LOUVAIN COMMUNITIES 5 LABEL PROPAGATION
+    GraphAlgo { algo: u8, damping: Option<f64>, tolerance: Option<f64>, iterations: Option<u64>, sampling: Option<Lit>, resolution: Option<f64>, passes: Option<u64>, dir: Option<u8>, ety: Option<String> },
 }
+
+const ALGO_NAMES: [&str; 6] = ["pagerank", "betweenness", "closeness", "eigenvector", "louvain", "label-propagation"];
 
 fn agg_text(a: &(u8, String), st: &Style) -> String {
     let f = match a.0 {
@@ -2301,6 +2319,12 @@ impl Op {
             Op::SimilarIn { .. } => "similar-vector-where",
             Op::Aggregate { group, .. } if group.is_empty() => "select-aggregate",
             Op::Aggregate { .. } => "select-group-by",
+            Op::GraphAlgo { algo: 0, .. } => "graph-pagerank",
+            Op::GraphAlgo { algo: 1, .. } => "graph-betweenness",
+            Op::GraphAlgo { algo: 2, .. } => "graph-closeness",
+            Op::GraphAlgo { algo: 3, .. } => "graph-eigenvector",
+            Op::GraphAlgo { algo: 4, .. } => "graph-louvain",
+            Op::GraphAlgo { .. } => "graph-label-propagation",
         }
     }
 
@@ -2423,6 +2447,42 @@ impl Op {
                 let its: Vec<String> = items.iter().map(|(key, v)| format!("({}, {})", quote_str(key, st.dq_strings), vec_text(v, st))).collect();
                 format!("{} {} [{}]{}", k("EMBED"), k("BATCH"), its.join(", "), coll.as_ref().map(|c| format!(" {} {}", k("INTO"), c)).unwrap_or_default())
             }
+            Op::GraphAlgo { algo, damping, tolerance, iterations, sampling, resolution, passes, dir, ety } => {
+                let head = match algo {
+                    0 => k("PAGERANK"),
+                    1 => format!("{} {}", k("BETWEENNESS"), k("CENTRALITY")),
+                    2 => format!("{} {}", k("CLOSENESS"), k("CENTRALITY")),
+                    3 => format!("{} {}", k("EIGENVECTOR"), k("CENTRALITY")),
+                    4 => format!("{} {}", k("LOUVAIN"), k("COMMUNITIES")),
+                    _ => format!("{} {}", k("LABEL"), k("PROPAGATION")),
+                };
+                let mut s = format!("{} {}", k("GRAPH"), head);
+                if let Some(x) = damping {
+                    s.push_str(&format!(" {} {:?}", k("DAMPING"), x));
+                }
+                if let Some(x) = sampling {
+                    s.push_str(&format!(" {} {}", k("SAMPLING"), x.text(st)));
+                }
+                if let Some(x) = resolution {
+                    s.push_str(&format!(" {} {:?}", k("RESOLUTION"), x));
+                }
+                if let Some(x) = passes {
+                    s.push_str(&format!(" {} {}", k("PASSES"), x));
+                }
+                if let Some(x) = iterations {
+                    s.push_str(&format!(" {} {}", k("ITERATIONS"), x));
+                }
+                if let Some(x) = tolerance {
+                    s.push_str(&format!(" {} {:?}", k("TOLERANCE"), x));
+                }
+                if let Some(d) = dir {
+                    s.push_str(&format!(" {}", k(["OUTGOING", "INCOMING", "BOTH"][*d as usize % 3])));
+                }
+                if let Some(t) = ety {
+                    s.push_str(&format!(" {} {} {}", k("EDGE"), k("TYPE"), t));
+                }
+                s
+            }
             Op::Aggregate { table, group, aggs, cond, having } => {
                 let mut items: Vec<String> = group.clone();
                 items.extend(aggs.iter().map(|a| agg_text(a, st)));
@@ -2472,6 +2532,10 @@ enum Direct {
     /// expected result rows of an aggregate query: group key values, then one value per aggregate
     /// (`None` = not judged); `grouped` = GROUP BY present
     Groups { n_keys: usize, rows: Vec<(Vec<Value>, Vec<Option<Value>>)>, grouped: bool },
+    /// per-node scores of a graph algorithm
+    Scores(Vec<(u64, f64)>),
+    /// communities as a partition of the node set
+    Partition(Vec<Vec<u64>>),
 }
 
 fn es<E: std::fmt::Display>(e: E) -> String {
@@ -2571,6 +2635,98 @@ fn direct(op: &Op, router: &QueryRouter) -> Result<Direct, String> {
             Ok(Direct::Count(n))
         }
         Op::Aggregate { table, group, aggs, cond, having } => aggregate_direct(rel, table, group, aggs, cond, having),
+        Op::GraphAlgo { algo, damping, tolerance, iterations, sampling, resolution, passes, dir, ety } => {
+            // the engine's own default configuration; only clauses written in the statement are set
+            let d = dir.map(|d| match d % 3 {
+                0 => Direction::Outgoing,
+                1 => Direction::Incoming,
+                _ => Direction::Both,
+            });
+            let sorted = |m: HashMap<u64, f64>| {
+                let mut v: Vec<(u64, f64)> = m.into_iter().collect();
+                v.sort_by_key(|p| p.0);
+                v
+            };
+            let parts = |m: HashMap<u64, Vec<u64>>| {
+                let mut v: Vec<Vec<u64>> = m
+                    .into_values()
+                    .map(|mut x| {
+                        x.sort_unstable();
+                        x
+                    })
+                    .collect();
+                v.sort();
+                v
+            };
+            match algo {
+                0 => {
+                    let mut c = graph_engine::PageRankConfig::default();
+                    if let Some(x) = damping {
+                        c.damping = *x;
+                    }
+                    if let Some(x) = tolerance {
+                        c.tolerance = *x;
+                    }
+                    if let Some(x) = iterations {
+                        c.max_iterations = *x as usize;
+                    }
+                    if let Some(x) = d {
+                        c.direction = x;
+                    }
+                    c.edge_type = ety.clone();
+                    let all_default = damping.is_none() && tolerance.is_none() && iterations.is_none() && d.is_none() && ety.is_none();
+                    let r = if all_default { g.pagerank(None) } else { g.pagerank(Some(c)) };
+                    r.map(|r| Direct::Scores(sorted(r.scores))).map_err(es)
+                }
+                1 | 2 | 3 => {
+                    let mut c = graph_engine::CentralityConfig::default();
+                    if let Some(x) = d {
+                        c.direction = x;
+                    }
+                    c.edge_type = ety.clone();
+                    if let Some(x) = sampling {
+                        c.sampling_ratio = match x {
+                            Lit::Int(i) => *i as f64,
+                            Lit::Float(f) => *f,
+                            _ => 1.0,
+                        };
+                    }
+                    if *algo == 3 {
+                        if let Some(x) = iterations {
+                            c.max_iterations = *x as usize;
+                        }
+                        if let Some(x) = tolerance {
+                            c.tolerance = *x;
+                        }
+                    }
+                    let r = match algo {
+                        1 => g.betweenness_centrality(Some(c)),
+                        2 => g.closeness_centrality(Some(c)),
+                        _ => g.eigenvector_centrality(Some(c)),
+                    };
+                    r.map(|r| Direct::Scores(sorted(r.scores))).map_err(es)
+                }
+                _ => {
+                    let mut c = graph_engine::CommunityConfig::default();
+                    if let Some(x) = d {
+                        c.direction = x;
+                    }
+                    c.edge_type = ety.clone();
+                    if *algo == 4 {
+                        if let Some(x) = resolution {
+                            c.resolution = *x;
+                        }
+                        if let Some(x) = passes {
+                            c.max_passes = *x as usize;
+                        }
+                    } else if let Some(x) = iterations {
+                        c.max_iterations = *x as usize;
+                    }
+                    let r = if *algo == 4 { g.louvain_communities(Some(c)) } else { g.label_propagation(Some(c)) };
+                    r.map(|r| Direct::Partition(parts(r.members))).map_err(es)
+                }
+            }
+        }
         Op::SimilarIn { coll, key, vec, k, filter, .. } => {
             // the query names a stored key of the collection the statement targets
             let q: Vec<f32> = match (key, coll) {
@@ -2820,6 +2976,19 @@ fn aggregate_direct(rel: &RelationalEngine, table: &str, group: &[String], aggs:
     Ok(Direct::Groups { n_keys: group.len(), rows: out, grouped: !group.is_empty() })
 }
 
+/// same node set, scores equal up to the summation order of the per-node accumulations
+fn scores_agree(a: &[(u64, f64)], b: &[(u64, f64)]) -> Result<(), String> {
+    if a.len() != b.len() || a.iter().zip(b.iter()).any(|(x, y)| x.0 != y.0) {
+        return Err("scored node sets differ".into());
+    }
+    for (x, y) in a.iter().zip(b.iter()) {
+        if !(f64_eq_value(x.1, y.1) || (x.1 - y.1).abs() <= 1e-9 * (1.0 + x.1.abs().max(y.1.abs()))) {
+            return Err(format!("node {} scores {} vs {}", x.0, x.1, y.1));
+        }
+    }
+    Ok(())
+}
+
 fn value_close(a: &Value, b: &Value) -> bool {
     match (a, b) {
         // sums and averages may be accumulated in another row order
@@ -2993,6 +3162,44 @@ fn results_agree(a: &QueryResult, b: &Direct, rep: &mut Report) -> Result<(), St
             }
             Ok(())
         }
+        (QueryResult::PageRank(x), Direct::Scores(y)) => {
+            let mut got: Vec<(u64, f64)> = x.items.iter().map(|i| (i.node_id, i.score)).collect();
+            got.sort_by_key(|p| p.0);
+            scores_agree(&got, y).or_else(|why| bad(&why))
+        }
+        (QueryResult::Centrality(x), Direct::Scores(y)) => {
+            let mut got: Vec<(u64, f64)> = x.items.iter().map(|i| (i.node_id, i.score)).collect();
+            got.sort_by_key(|p| p.0);
+            scores_agree(&got, y).or_else(|why| bad(&why))
+        }
+        (QueryResult::Communities(x), Direct::Partition(y)) => {
+            let mut got: Vec<Vec<u64>> = x
+                .members
+                .values()
+                .map(|m| {
+                    let mut m = m.clone();
+                    m.sort_unstable();
+                    m
+                })
+                .collect();
+            got.sort();
+            // community detection visits nodes in hash order and breaks ties by it (no seed clause in the
+            // grammar): two runs on equal graphs may return different, equally valid partitions. Judged:
+            // both are partitions of the same node set.
+            let flat = |p: &Vec<Vec<u64>>| {
+                let mut v: Vec<u64> = p.iter().flatten().copied().collect();
+                v.sort_unstable();
+                v
+            };
+            let (fa, fb) = (flat(&got), flat(y));
+            let mut fa_d = fa.clone();
+            fa_d.dedup();
+            if fa != fb || fa_d.len() != fa.len() {
+                return bad("communities do not partition the same node set");
+            }
+            rep.count(if &got == y { "community_partitions_identical" } else { "community_partitions_differ_not_judged" }, 1);
+            Ok(())
+        }
         (QueryResult::Rows(_), Direct::Done(None)) => {
             rep.count("aggregate_engine_inconsistent_not_judged", 1);
             Ok(())
@@ -3101,6 +3308,8 @@ fn direct_dbg(d: &Direct) -> String {
         Direct::Keys(k, l) => format!("keys {:?} limit {:?}", k, l),
         Direct::Done(x) => format!("done {:?}", x),
         Direct::Groups { rows, .. } => format!("groups {:?}", rows),
+        Direct::Scores(x) => format!("scores {:?}", x),
+        Direct::Partition(x) => format!("partition {:?}", x),
     }
 }
 
@@ -3125,6 +3334,8 @@ struct Model {
     ents: Vec<String>,
     /// keys stored per named collection
     ckeys: BTreeMap<String, Vec<String>>,
+    /// the text-side router holds an HNSW index (QueryRouter::build_vector_index was called)
+    index_built: bool,
 }
 
 const TABLE_NAMES: &[&str] = &["users", "orders", "t1", "items", "log_2"];
@@ -3312,8 +3523,16 @@ fn gen_op(r: &mut Rng, m: &mut Model) -> Op {
             r.pick(&m.ents).clone()
         }
     };
+    if m.index_built && r.chance(1, 5) {
+        let metric = if r.chance(1, 5) { None } else { Some(r.below(3) as u8) };
+        let k = 1 + r.below(6) as u64;
+        if !m.keys.is_empty() && r.bool() {
+            return Op::SimilarKey { key: r.pick(&m.keys).clone(), k, metric };
+        }
+        return Op::SimilarVec { vec: gen_vec(r, m.dim), k, metric };
+    }
     loop {
-        match r.below(184) {
+        match r.below(196) {
             0..=5 => {
                 let name = r.pick(TABLE_NAMES).to_string();
                 let n = 1 + r.below(4);
@@ -3465,6 +3684,20 @@ fn gen_op(r: &mut Rng, m: &mut Model) -> Op {
                 let n = 1 + r.below(3);
                 let items = (0..n).map(|_| (if !m.keys.is_empty() && r.bool() { r.pick(&m.keys).clone() } else { vkey(r) }, gen_vec(r, m.dim))).collect();
                 return Op::EmbedBatch { coll: if r.chance(2, 3) { Some(r.pick(COLLECTIONS).to_string()) } else { None }, items };
+            }
+            184..=195 if !m.nodes.is_empty() => {
+                let algo = r.below(6) as u8;
+                let opt = |r: &mut Rng| r.chance(2, 5);
+                let damping = if algo == 0 && opt(r) { Some(*r.pick(&[0.5, 0.85, 0.9, 0.25])) } else { None };
+                let tolerance = if (algo == 0 || algo == 3) && opt(r) { Some(*r.pick(&[1e-6, 1e-3, 1e-9])) } else { None };
+                let iterations = if (algo == 0 || algo == 3 || algo == 5) && opt(r) { Some(*r.pick(&[0u64, 1, 3, 20, 100, 500])) } else { None };
+                // sampling below 1.0 draws random pivots: only the full ratio has a defined answer
+                let sampling = if algo == 1 && opt(r) { Some(if r.bool() { Lit::Float(1.0) } else { Lit::Int(1) }) } else { None };
+                let resolution = if algo == 4 && opt(r) { Some(*r.pick(&[0.5, 1.0, 2.0])) } else { None };
+                let passes = if algo == 4 && opt(r) { Some(*r.pick(&[1u64, 2, 10])) } else { None };
+                let dir = if r.chance(1, 2) { Some(r.below(3) as u8) } else { None };
+                let ety = if r.chance(1, 4) { Some(r.pick(ETYPES).to_string()) } else { None };
+                return Op::GraphAlgo { algo, damping, tolerance, iterations, sampling, resolution, passes, dir, ety };
             }
             166..=183 if !live.is_empty() => {
                 // prefer the table that received most rows
@@ -3664,8 +3897,12 @@ fn final_states_agree(a: &QueryRouter, b: &QueryRouter, tables: &[String]) -> Re
 
 fn equiv_case(case_seed: u64, rep: &mut Report) {
     let mut r = Rng::new(case_seed);
-    let a = QueryRouter::new();
+    let mut a = QueryRouter::new();
     let b = QueryRouter::new();
+    // in some programs the text-side router gets its HNSW index built at a random step; the
+    // direct engine calls do not change with it. `index_stale`: the default collection changed since.
+    let build_at = if r.chance(2, 5) { Some(3 + r.below(25)) } else { None };
+    let mut index_stale = false;
     let mut m = Model { dim: *r.pick(&[2usize, 3, 4, 8]), ..Default::default() };
     if r.chance(3, 5) {
         match guard(|| seed_vector_fixture(&mut r, &mut m, &a, &b)) {
@@ -3681,6 +3918,15 @@ fn equiv_case(case_seed: u64, rep: &mut Report) {
     let mut trace: Vec<String> = Vec::new();
     let mut all_tables: Vec<String> = Vec::new();
     for step in 0..steps {
+        if build_at == Some(step) && !m.index_built {
+            // same dimension everywhere, or the index cannot be built
+            if let Ok(Ok(())) = guard(|| a.build_vector_index()) {
+                m.index_built = true;
+                index_stale = false;
+                rep.count("programs_with_hnsw_index_built", 1);
+                trace.push("-- router.build_vector_index()".to_string());
+            }
+        }
         let op = gen_op(&mut r, &mut m);
         let st = Style::random(&mut r);
         let text = op.text(&st);
@@ -3708,6 +3954,8 @@ fn equiv_case(case_seed: u64, rep: &mut Report) {
                     viol(rep, pan_signature("execute_parsed", &p), ctx(format!("execute_parsed panicked at {}:{}: {}", p.file, p.line, p.msg)), replay.clone());
                 } else {
                     rep.count("panics_below_router_not_judged", 1);
+                    rep.samples.insert(0, json!({"panic_below_router": format!("{}:{} {}", p.file, p.line, p.msg), "statement": text, "index_built": m.index_built}));
+                    eprintln!("[C15] panic below the router (not judged): {}:{} {} on `{}` (index built: {})", p.file, p.line, p.msg, trunc(&text, 200), m.index_built);
                 }
                 return;
             }
@@ -3725,10 +3973,26 @@ fn equiv_case(case_seed: u64, rep: &mut Report) {
         if op.neg_position().is_some() {
             rep.count("statements_with_negative_literal", 1);
         }
+        if m.index_built && ra.is_ok() != rb.is_ok() && matches!(&op, Op::SimilarKey { metric: None | Some(0), .. } | Op::SimilarVec { metric: None | Some(0), .. } | Op::SimilarConnected { .. }) {
+            // the index answers from its own copy of the vectors; validation differences are not judged
+            rep.count("similar_cosine_over_index_error_mismatch_not_judged", 1);
+            continue;
+        }
         match (&ra, &rb) {
             (Ok(qa), Ok(db)) => {
                 rep.count("both_ok", 1);
                 rep.count(&format!("both_ok[{}]", fam), 1);
+                if let Op::GraphAlgo { algo, dir, .. } = &op {
+                    // did the graph distinguish directions (some edge a->b without b->a)?
+                    let edges = b.graph().all_edges();
+                    let asym = edges.iter().any(|e| e.from != e.to && !edges.iter().any(|f| f.from == e.to && f.to == e.from));
+                    if asym {
+                        rep.count(&format!("graph_algo_on_asymmetric_graph_agreed[{}]", ALGO_NAMES[*algo as usize % 6]), 1);
+                        if dir.is_none() {
+                            rep.count(&format!("graph_algo_direction_omitted_on_asymmetric_graph_agreed[{}]", ALGO_NAMES[*algo as usize % 6]), 1);
+                        }
+                    }
+                }
                 if let Op::Aggregate { table, aggs, cond, group, .. } = &op {
                     // was there a NULL in an aggregated column among the rows the query covers?
                     let c = cond.as_ref().map(|c| c.direct()).unwrap_or(Condition::True);
@@ -3754,6 +4018,41 @@ fn equiv_case(case_seed: u64, rep: &mut Report) {
                     if *limit == Some(0) || *offset == Some(0) {
                         rep.count("windows_with_zero_agreed", 1);
                     }
+                }
+                if matches!(&op, Op::EmbedStore { .. } | Op::EmbedDelete(_) | Op::EmbedBatch { coll: None, .. } | Op::EntityCreate { .. }) {
+                    index_stale = true;
+                }
+                // cosine over the router's HNSW index: approximate by design and blind to later writes.
+                // Judged: every returned key carries its true cosine score (fresh index only).
+                let mut cosine_over_index = false;
+                if m.index_built {
+                    if let (Op::SimilarKey { metric: None | Some(0), k, .. } | Op::SimilarVec { metric: None | Some(0), k, .. }, QueryResult::Similar(x), Direct::Similar(_, full)) = (&op, qa, db) {
+                        cosine_over_index = true;
+                        if index_stale {
+                            rep.count("similar_cosine_over_stale_index_not_judged", 1);
+                        } else {
+                            let truth: HashMap<&String, f32> = full.iter().map(|(k, s)| (k, *s)).collect();
+                            let wrong = x.iter().find(|r| truth.get(&r.key).map_or(true, |s| (s - r.score).abs() > 1e-4));
+                            if x.len() > *k as usize || wrong.is_some() {
+                                viol(rep, format!("equivalence:result-differs:{}", fam), ctx(format!("over the HNSW index a returned key does not carry its cosine score: {:?} vs exact ranking {:?}", x, full)), replay.clone());
+                                return;
+                            }
+                            rep.count("similar_cosine_over_fresh_index_agreed", 1);
+                        }
+                    }
+                    if let Op::SimilarKey { metric: Some(mm @ (1 | 2)), .. } | Op::SimilarVec { metric: Some(mm @ (1 | 2)), .. } = &op {
+                        rep.count(if *mm == 1 { "similar_euclidean_with_index_built" } else { "similar_dot_product_with_index_built" }, 1);
+                    }
+                }
+                if m.index_built && matches!(&op, Op::SimilarConnected { .. }) {
+                    // find_similar_connected takes its candidates from the HNSW index once one exists
+                    // (approximate, blind to later writes): not comparable with the exact route
+                    rep.count("similar_connected_over_index_not_judged", 1);
+                    cosine_over_index = true;
+                }
+                if cosine_over_index {
+                    model_update(&mut m, &op, db);
+                    continue;
                 }
                 if let Err(why) = results_agree(qa, db, rep) {
                     // with LIMIT/OFFSET the window shifts; classify on the same SELECT without them
@@ -3904,7 +4203,7 @@ fn main() {
             let n = args.extra_u64("trees", args.by_tier(120_000, 2_500_000));
             let rep = par_cases(args.threads, args.seed ^ 0x7EE, n, args.budget(40, 300), |_i, s, r| tree_case_random(s, r));
             total.merge(rep);
-            let n = args.extra_u64("wide-trees", args.by_tier(4_000, 120_000));
+            let n = args.extra_u64("wide-trees", args.by_tier(3_000, 120_000));
             let rep = par_cases(args.threads, args.seed ^ 0x71DE, n, args.budget(30, 240), |_i, s, r| tree_case_wide(s, r));
             total.merge(rep);
         }
@@ -3954,7 +4253,7 @@ fn main() {
     };
     let meta = Meta {
         property: "C15",
-        rule: "totality: one evaluation = one input string (<= 4096 bytes: random bytes, printable ASCII, unicode incl. characters whose uppercase has another length, keyword/operator soup, 1-4 token-level mutations of ~870 statements taken from the parser's and the router's own tests, nesting of 19 kinds up to the depth that fits in 4 KiB) pushed through tokenize, parse_expr, parse, parse_all (each twice) and, when execution stays inside the engines, QueryRouter::execute_parsed and ::execute, on a 2 MiB-stack thread of a child process; distinct by hash of the text, non-trivial if it lexes to >= 2 tokens. precedence: one evaluation = one expression tree (all 722 two-operator, 180 unary/binary and 34 295 three-operator trees; random trees of height 2-8 over all 19 binary and 3 unary operators plus IS NULL/IN/BETWEEN/LIKE/calls/CASE/arrays/tuples; wide flat expressions of 20-450 operands - one-level chains, sums of products, AND-ed comparisons, all operators mixed - whose expected tree is the documented table's grouping and for which `nesting too deep` counts as a wrong parse) whose minimal-parentheses and fully-parenthesised prints both parse back to it through parse_expr and through the statement parser in SELECT-item, WHERE and UPDATE-SET position; distinct by hash of the minimal print, non-trivial with >= 2 operators. equivalence: one evaluation = one completed program of 20-49 generated statements (CREATE/DROP TABLE, CREATE INDEX, SHOW TABLES, INSERT, SELECT with projection/ORDER BY/LIMIT/OFFSET, SELECT COUNT(*)/COUNT/SUM/AVG/MIN/MAX [GROUP BY 1-2 columns] [HAVING COUNT..], UPDATE, DELETE, NODE/EDGE CREATE/GET/DELETE/LIST, NEIGHBORS [BY SIMILAR], PATH, FIND NODE/EDGE, EMBED STORE/GET/DELETE/BATCH [INTO collection], SHOW/COUNT EMBEDDINGS, SIMILAR key|vector [COSINE] [INTO collection] [WHERE metadata filter] [CONNECTED TO], ENTITY CREATE/CONNECT; every LIMIT/OFFSET is drawn from {absent, 0, 1-4, 10, larger than any result}) run as text on one router and as direct calls on a twin, compared after every statement and on the final engine states; distinct by hash of the statement texts.",
+        rule: "totality: one evaluation = one input string (<= 4096 bytes: random bytes, printable ASCII, unicode incl. characters whose uppercase has another length, keyword/operator soup, 1-4 token-level mutations of ~870 statements taken from the parser's and the router's own tests, nesting of 19 kinds up to the depth that fits in 4 KiB) pushed through tokenize, parse_expr, parse, parse_all (each twice) and, when execution stays inside the engines, QueryRouter::execute_parsed and ::execute, on a 2 MiB-stack thread of a child process; distinct by hash of the text, non-trivial if it lexes to >= 2 tokens. precedence: one evaluation = one expression tree (all 722 two-operator, 180 unary/binary and 34 295 three-operator trees; random trees of height 2-8 over all 19 binary and 3 unary operators plus IS NULL/IN/BETWEEN/LIKE/calls/CASE/arrays/tuples; wide flat expressions of 20-450 operands - one-level chains, sums of products, AND-ed comparisons, all operators mixed - whose expected tree is the documented table's grouping and for which `nesting too deep` counts as a wrong parse) whose minimal-parentheses and fully-parenthesised prints both parse back to it through parse_expr and through the statement parser in SELECT-item, WHERE and UPDATE-SET position; distinct by hash of the minimal print, non-trivial with >= 2 operators. equivalence: one evaluation = one completed program of 20-49 generated statements (CREATE/DROP TABLE, CREATE INDEX, SHOW TABLES, INSERT, SELECT with projection/ORDER BY/LIMIT/OFFSET, SELECT COUNT(*)/COUNT/SUM/AVG/MIN/MAX [GROUP BY 1-2 columns] [HAVING COUNT..], GRAPH PAGERANK / BETWEENNESS|CLOSENESS|EIGENVECTOR CENTRALITY / LOUVAIN COMMUNITIES / LABEL PROPAGATION with each optional clause present or omitted against the engine call with its default configuration, UPDATE, DELETE, NODE/EDGE CREATE/GET/DELETE/LIST, NEIGHBORS [BY SIMILAR], PATH, FIND NODE/EDGE, EMBED STORE/GET/DELETE/BATCH [INTO collection], SHOW/COUNT EMBEDDINGS, SIMILAR key|vector [COSINE] [INTO collection] [WHERE metadata filter] [CONNECTED TO], ENTITY CREATE/CONNECT; every LIMIT/OFFSET is drawn from {absent, 0, 1-4, 10, larger than any result}) run as text on one router and as direct calls on a twin, compared after every statement and on the final engine states; distinct by hash of the statement texts.",
         assumptions: vec![
             "the documented table is expr.rs:7-18 / the book's Binding Power Table: OR < AND < comparison < | < ^ < & < shifts < + - || < * / % < unary NOT - ~ < postfix, binary operators left-associative; where it is silent (a compound operand of IS NULL / IN / BETWEEN / LIKE, bounds of BETWEEN, LIKE pattern) the printer always writes parentheses".into(),
             "expr.rs answering TooDeep (its documented nesting limit of 64) is an error, not a regrouping; such prints are skipped and counted".into(),
